@@ -483,8 +483,8 @@ fn main() {
     let mut distinct: HashSet<String> = HashSet::new();
     let mut dist: BTreeMap<String, u64> = BTreeMap::new();
     let mut bump = |k: &str| { *dist.entry(k.to_string()).or_insert(0) += 1; };
-    let n_valid = if thorough { 2500 } else { 220 };
-    let n_malformed = if thorough { 500 } else { 50 };
+    let n_valid = if thorough { 2500 } else { 300 };
+    let n_malformed = if thorough { 500 } else { 60 };
     let mut samples: Vec<J> = vec![];
     let mut name_cases: Vec<(String, J)> = vec![];
     for i in 0..(n_valid + n_malformed) {
